@@ -16,7 +16,7 @@ CHECKS = {
         "exploration",
         "runtime monitoring: boundary oracle decode(encode(v))==v on the real codec over an alignment-grid + random workload; sys.monitoring reach map",
         "decode(encode(v)) == v held on every generated (schema, struct, value); covers every leaf kind at every bit offset mod 8, all container nestings to depth 3, boundary values.  Exploration only: nothing outside the generated classes is claimed.",
-        "trusts the value generator's notion of 'in range'; floats compared bit-for-bit; sNaN excluded",
+        "trusts the value generator's notion of 'in range'; floats compared bit-for-bit; sNaN excluded; histories: address reuse, edits in place, failing calls, -O interpreters; encode() must leave the caller's value untouched",
         "DESIGN.md 3/C01",
     ),
     "C02": (
@@ -30,7 +30,7 @@ CHECKS = {
         "fault_enumeration",
         "runtime monitoring with fault injection: every truncation point and length-prefix corruption of valid encodings; logical work counter via sys.monitoring",
         "every enumerated truncation raises, every corrupted prefix is rejected or parsed like the reference, and the number of python calls inside fcp.serde stays below a bound linear in the input length.",
-        "any exception counts as a decoding error; reference decoder is the spec for corrupted-but-parsable inputs",
+        "any exception counts as a decoding error; a valid encoding is one that equals the canonical bytes; reference decoder is the spec for corrupted-but-parsable inputs; prefixes also under python -O / -OO and after growing a struct in place",
         "DESIGN.md 3/C16",
     ),
     "C04": (
@@ -44,7 +44,7 @@ CHECKS = {
         "exploration",
         "runtime monitoring: two independent DBC readers (cantools + own) vs the real layout; end-to-end frame oracle (reference packer <-> cantools)",
         "every generated DBC described exactly the layout of every CAN binding, per bus; packed frames decoded through the DBC to the original values and cantools encoded them to the same bytes.",
-        "relative to the layout returned by the real encoder (C04 judges it); cantools is one of the two readers",
+        "signals are checked against the leaves of the real encoder AND of the reference layout (names, widths, little-endian positions), units also against the declared ones; cantools is one of the two readers",
         "DESIGN.md 3/C05",
     ),
     "C07": (
@@ -72,14 +72,14 @@ CHECKS = {
         "fault_enumeration",
         "runtime monitoring with fault injection: every rejection source x generator x directory state; sys.addaudithook file-system event log + content-hash snapshots",
         "every enumerated rejection returned Err and produced no file-system mutation; every accepted run wrote exactly the files the plug-in returned.",
-        "faults enumerated: each general rule, each plug-in rule, a synthetic rejecting check in each of the 8 categories (first/last)",
+        "faults enumerated: each general rule, each plug-in rule, a synthetic rejecting check in each of the 8 categories (first / last / one of a same-named pair / registered late / failing through Nothing()), histories on one long-lived manager, a probe plug-in of the harness",
         "DESIGN.md 3/C10",
     ),
     "C11": (
         "exploration",
         "runtime monitoring: exception-escape / render / citation monitors over prefixes, token mutants, out-of-domain literals, random text, deep nesting, faulty modules; CPU-time alarm",
         "no exception escaped, every Err rendered, every cited .fcp line existed, on every generated input.",
-        "nesting bounded at 200; any BaseException other than KeyboardInterrupt counts as an escape",
+        "nesting to 5000 levels plus a frame-by-frame sweep of the stack headroom; any BaseException other than KeyboardInterrupt counts as an escape; errors are also rendered twice, with colours forced on and without a terminal-like stdout",
         "DESIGN.md 3/C11",
     ),
     "C12": (
@@ -100,7 +100,7 @@ CHECKS = {
         "exploration",
         "runtime monitoring: differential file-map comparison across fresh processes (hash seeds), in-process histories and tree reuse",
         "all generators produced identical file maps (stamp line removed) across hash seeds, histories and reuse of the same tree.",
-        "only the documented stamp line is normalised",
+        "only the documented stamp line is normalised; generators that must give up on a schema (variable-size CAN binding, over-deep nesting) must do so identically in every configuration",
         "DESIGN.md 3/C17",
     ),
     "C20": (
@@ -121,14 +121,14 @@ CHECKS = {
         "exploration",
         "compiler sanitizers + runtime monitoring: generated C compiled with gcc -fsanitize=address,undefined (minus alignment) plus a harness derived from the generated headers; oracle = reference packing at the real layout",
         "the generated C compiled, encoded every value to the expected id/DLC/data and decoded it back, with no sanitizer report.",
-        "flat CAN schemas of the advertised subset; floats compared numerically on decode (-0.0 == 0.0)",
+        "flat CAN schemas of the advertised subset, judged against the reference layout; every other schema through GeneratorManager with the plug-in checks; floats compared numerically on decode (-0.0 == 0.0)",
         "DESIGN.md 3/C06",
     ),
     "C13": (
         "exploration",
-        "compiler sanitizers + runtime monitoring: static vs reflection-loaded codec in one sanitized harness process, reference codec arbitrates; known finding matched by a defect model",
+        "compiler sanitizers + runtime monitoring: static vs reflection-loaded codec in one sanitized harness process (any difference is a violation); histories: reflection loaded twice, a second schema revision used first; known findings matched by defect models",
         "DynamicSchema decoded every canonical byte string like StaticSchema and encoded like it on every struct made of whole-byte leaves; elsewhere its bytes matched the recorded defect model exactly.",
-        "reflection binary produced like 'fcp encode'; known finding cpp-dynamic-encode-unpacked",
+        "reflection binary produced like 'fcp encode'; known findings cpp-dynamic-encode-unpacked and reflection-integers-truncated-to-32-bits",
         "DESIGN.md 3/C13",
     ),
     "C15": (
